@@ -230,3 +230,39 @@ func VH_C01_WriteMessages(n, P, batchSize, balancerKind, batchBytes int) {
 	}
 	vhReach("c01-writemessages")
 }
+
+// H5 (level S): the linger timer of a batch fires at the very moment the batch has become full and a following
+// batch was started (both cases of awaitBatch's select are ready: the engine takes each). Whatever the select
+// picks, every message ends up in the log exactly once and the following batch is not lost.
+func VH_C01_LingerTimerRace() {
+	vhConcreteClock(true)
+	tr := &vhTransport{partitions: 1, budget: 1, fixed: []int{vhAcked, vhAcked, vhAcked, vhAcked, vhAcked, vhAcked}}
+	w := &Writer{Addr: TCP("vh:9092"), Topic: "t", MaxAttempts: 1, BatchSize: 2, BatchTimeout: 10 * time.Millisecond, Transport: tr, RequiredAcks: RequireAll, Async: true}
+	vhManual(true) // the goroutines the writer starts are held back until the timer has fired
+	err := w.WriteMessages(context.Background(), Message{Value: []byte{1}}, Message{Value: []byte{2}}, Message{Value: []byte{3}})
+	vhAssert(err == nil, "async-write-accepted")
+	fired := vhFireNext() // the linger timer of the first batch, which is full already
+	vhAssert(fired, "first-batch-has-a-linger-timer")
+	vhManual(false)
+	vhSettle()
+	for i := 0; i < 3; i++ {
+		time.Sleep(20 * time.Millisecond) // the second batch lingers, then is flushed by its timer
+		vhSettle()
+	}
+	closed := false
+	go func() { w.Close(); closed = true }()
+	for i := 0; i < 4 && !closed; i++ {
+		vhSettle() // the goroutines started while held back only run when the harness says so
+	}
+	vhAssert(closed, "close-returns")
+	count := map[int]int{}
+	for _, j := range tr.journal {
+		for _, id := range j.ids {
+			count[id]++
+		}
+	}
+	for id := 1; id <= 3; id++ {
+		vhAssert(count[id] == 1, "every-accepted-message-is-in-the-log-exactly-once")
+	}
+	vhReach("c01-linger-timer-race")
+}
